@@ -486,8 +486,10 @@ open Rarena Rarena.Conc
 /-- result of a thread operation, as printed on a `res` line (without `r=`-less prefix) plus table effects -/
 inductive OpOut where
   | text (s : String)
+  /-- end of the thread's program: its own arena clone was dropped (no `res` line) -/
+  | exit
   | alloc (id : Nat) (r : Except Err (Option Meta)) (hk : HKind) (owned : Bool) (mode : Nat) (talign : Nat)
-  | dropped (id : Nat) (detached : Bool) (extra : String)
+  | dropped (id : Nat) (h : Handle) (detached : Bool) (extra : String)
 
 structure Thread where
   tid : Nat
@@ -495,11 +497,15 @@ structure Thread where
   idx : Nat := 0
   cur : Option (Prog OpOut) := none
   finished : Bool := false
+  exiting : Bool := false
+  /-- `na` lines of the running operation, printed right before its `res` line (as the harness does) -/
+  pend : Array String := #[]
 
 structure CS where
   sess : Sess           -- tables (handles, arenas, dropCount, opts, cfg); `sess.st`/`sess.refs` mirror `sh`
   sh : Shared
   fills : List (Nat × UInt8)   -- last fill byte per handle
+  via : List (Nat × Nat) := []  -- borrowed handle → thread through whose arena clone it was allocated
   threads : List Thread
   out : Array String := #[]
   fuel : Nat
@@ -551,8 +557,8 @@ def mkOp (x : CS) (toks : List String) : Prog OpOut :=
       if h.holdsArena then dropArenaC else pure ()
       if explicit then do
         let ret ← deallocC c h.mt.memOff h.mt.memSize fuel
-        pure (.dropped id true s!"r=ok ret={if ret then 1 else 0}")
-      else pure (.dropped id detached "")
+        pure (.dropped id h true s!"r=ok ret={if ret then 1 else 0}")
+      else pure (.dropped id h detached "")
   match toks with
   | ["alloc_bytes", h, n] | ["alloc_bytes_owned", h, n] =>
     match h.toNat?, n.toNat? with
@@ -617,6 +623,7 @@ def mkOp (x : CS) (toks : List String) : Prog OpOut :=
 /-- apply the table effects of a completed operation and produce its `res` text -/
 def finishOp (x : CS) (o : OpOut) : CS × String :=
   match o with
+  | .exit => (x, "")
   | .text t =>
     match t.splitOn " " with
     | ["r=ok", "fillrec", id, b] =>
@@ -646,14 +653,12 @@ def finishOp (x : CS) (o : OpOut) : CS × String :=
         | 1 => s!" am={am}"
         | _ => s!" am={am} z={z}"
       ({ x with sess := sess }, s!"r=ok off={m.ptrOff} cap={m.ptrSize} boff={m.memOff} bcap={m.memSize}{extra}")
-  | .dropped id detached extra =>
-    match x.sess.find id with
-    | none => (x, "r=nohandle")
-    | some h =>
-      let sess := x.sess.erase id
-      let sess := if h.dropsValue detached then { sess with dropCount := sess.dropCount + 1 } else sess
-      let x := { x with sess := sess, fills := x.fills.filter (·.1 != id) }
-      (x, if extra == "" then s!"r=ok dc={sess.dropCount}" else extra)
+  | .dropped id h detached extra =>
+    -- the handle left the shared table when the operation started
+    let sess := x.sess
+    let sess := if h.dropsValue detached then { sess with dropCount := sess.dropCount + 1 } else sess
+    let x := { x with sess := sess, fills := x.fills.filter (·.1 != id) }
+    (x, if extra == "" then s!"r=ok dc={sess.dropCount}" else extra)
 
 def setThread (x : CS) (t : Thread) : CS := { x with threads := x.threads.map (fun u => if u.tid == t.tid then t else u) }
 
@@ -663,22 +668,48 @@ partial def advance (x : CS) (t : Thread) : CS :=
   match t.cur with
   | none =>
     match t.ops with
-    | [] => setThread x { t with finished := true }
+    | [] =>
+      -- the thread drops its own clone of the arena, unless a live borrowed handle was allocated through it
+      let borrows := x.via.any (fun (h, tid) => tid == t.tid && (x.sess.find h).isSome)
+      if t.exiting || borrows then setThread x { t with finished := true }
+      else advance x { t with cur := some (do dropArenaC; pure OpOut.exit), exiting := true }
     | op :: rest =>
       let p := mkOp x op
+      -- a release takes its handle out of the shared table for the duration of the operation
+      let x := match op with
+        | [o, h] => if o == "drop" || o == "detach" || o == "dealloc" then
+            (match h.toNat? with | some id => { x with sess := x.sess.erase id } | none => x)
+          else if o == "drop_arena" then
+            (match h.toNat? with | some a => { x with sess := { x.sess with arenas := x.sess.arenas.erase a } } | none => x)
+          else x
+        | _ => x
       advance x { t with cur := some p, ops := rest }
   | some p =>
     let (sh', r, nas) := settle 100000 x.sh p []
-    let x := { x with sh := sh', out := x.out ++ (nas.map (naStr t.tid sh'.st.cap)).toArray }
+    let nonEmpty : NA → Bool := fun e => match e with
+      | .zero _ len => len != 0 | .fill _ len _ => len != 0 | .verify _ len => len != 0 | .unmount => true
+    let x := { x with sh := sh' }
+    let t := { t with pend := t.pend ++ ((nas.filter nonEmpty).map (naStr t.tid sh'.st.cap)).toArray }
     match r with
     | .blocked p' => setThread x { t with cur := some p' }
     | .failed f =>
-      let x := { x with out := x.out.push s!"res t={t.tid} i={t.idx} r={failStr f}" }
+      let x := { x with out := (x.out ++ t.pend).push s!"res t={t.tid} i={t.idx} r={failStr f}" }
       setThread x { t with cur := none, ops := [], finished := true }
+    | .done .exit => setThread { x with out := x.out ++ t.pend } { t with cur := none, finished := true, pend := #[] }
     | .done o =>
       let (x, txt) := finishOp x o
-      let x := { x with out := x.out.push s!"res t={t.tid} i={t.idx} {txt}" }
-      advance x { t with cur := none, idx := t.idx + 1 }
+      let x := match o with
+        | .alloc id (.ok _) _ false _ _ => { x with via := (id, t.tid) :: x.via }
+        | _ => x
+      -- typed allocations: the harness reports the zero-filling over the final accessible range (for a recycled
+      -- segment the code zeroes the whole padded range, of which this is a part)
+      let pend := match o with
+        | .alloc _ (.ok (some m)) _ _ 2 _ =>
+          (t.pend.filter (fun l => !(l.splitOn "src=clear").length == 2)) ++
+            (if m.ptrSize != 0 then #[naStr t.tid 0 (.zero m.ptrOff m.ptrSize)] else #[])
+        | _ => t.pend
+      let x := { x with out := (x.out ++ pend).push s!"res t={t.tid} i={t.idx} {txt}" }
+      advance x { t with cur := none, idx := t.idx + 1, pend := #[] }
 
 /-- grant one step to thread `tid` -/
 def grant (x : CS) (tid : Nat) (spurious : Bool) : CS :=
@@ -784,7 +815,7 @@ def runCase (lines : List String) : Array String := Id.run do
       match x.fills.find? (·.1 == id) with
       | some (_, b) => (List.range hd.mt.ptrSize).all (fun k => x.sh.st.mem.rd (hd.mt.ptrOff + k) == b.toNat)
       | none => true)
-    let fin := if x.sh.released > 0 then "final gone" else s!"final {stateStr fs} lv={if lv then 1 else 0}"
+    let fin := if x.sh.released > 0 || !(x.sess.arenas.contains 0) then "final gone" else s!"final {stateStr fs} lv={if lv then 1 else 0}"
     return x.out.push fin
 
 partial def readAll (h : IO.FS.Stream) (acc : Array String) : IO (Array String) := do
